@@ -70,6 +70,17 @@ def gen_calls(tier, seed):
                 if r.random() < 0.3:
                     kw['boost_error'] = False
                 calls.append(call('make_sequence', content(kind, n), **kw))
+    # symbol_count route: chunks that fill a symbol exactly / within a few bits (header 20 + 4 + count bits)
+    for kind, mode in (('numeric', 'numeric'), ('alphanumeric', 'alphanumeric'), ('kanji', 'kanji')):
+        for v, e in ((1, 'L'), (1, 'M'), (1, 'H'), (2, 'L'), (3, 'Q')):
+            per = T.max_chars(v, e, mode, extra=20)
+            for k in (2, 3, 4):
+                for d in (-2, -1, 0, 1):
+                    n = k * per + d
+                    if n >= k:
+                        calls.append(call('make_sequence', content(kind, n), symbol_count=k, error=e, boost_error=False))
+                        if d == 0:
+                            calls.append(call('make_sequence', content(kind, n), symbol_count=k, error=e))
     # explicit encodings and integers
     for enc in ('utf-8', 'iso-8859-15', 'shift_jis'):
         for k in (2, 3):
